@@ -119,12 +119,76 @@ func (f *faultFS) Open(name string) (fs.File, error) {
 	return f.inner.Open(name)
 }
 
+// depthProbe measures the call depth under which the parser reads its input: heap counters do not
+// see stack memory, so recursion per input line is looked for here. The depth is sampled from
+// inside Read/ReadByte of every reader the parser gets (top-level text and include files).
+type depthProbe struct {
+	max   int
+	count int
+	pcs   []uintptr
+}
+
+const depthCap = 4096
+
+func (d *depthProbe) sample() {
+	if d.pcs == nil {
+		d.pcs = make([]uintptr, depthCap)
+	}
+	if n := runtime.Callers(0, d.pcs); n > d.max {
+		d.max = n
+	}
+}
+
+type probeReader struct {
+	r io.Reader
+	d *depthProbe
+}
+
+func (p *probeReader) Read(b []byte) (int, error) {
+	p.d.sample()
+	return p.r.Read(b)
+}
+
+type probeByteReader struct {
+	probeReader
+	br io.ByteReader
+}
+
+func (p *probeByteReader) ReadByte() (byte, error) {
+	if p.d.count++; p.d.count&63 == 0 {
+		p.d.sample()
+	}
+	return p.br.ReadByte()
+}
+
+func probe(r io.Reader, d *depthProbe) io.Reader {
+	if br, ok := r.(io.ByteReader); ok {
+		return &probeByteReader{probeReader{r, d}, br}
+	}
+	return &probeReader{r, d}
+}
+
+type probeFile struct {
+	fs.File
+	d *depthProbe
+}
+
+func (f *probeFile) Read(b []byte) (int, error) {
+	f.d.sample()
+	return f.File.Read(b)
+}
+
+// depthBase is far above what a parse needs (about 10 frames, plus about 3 per level of
+// $INCLUDE / $GENERATE nesting, of which there are at most 8).
+const depthBase = 100
+
 // spyFS counts Open calls.
 type spyFS struct {
 	inner fs.FS
 	mu    sync.Mutex
 	opens []string
 	limit int // Open fails beyond this many calls (keeps a runaway recursion finite)
+	probe *depthProbe
 }
 
 func (s *spyFS) Open(name string) (fs.File, error) {
@@ -135,7 +199,11 @@ func (s *spyFS) Open(name string) (fs.File, error) {
 	if s.limit > 0 && n > s.limit {
 		return nil, fmt.Errorf("spy: more than %d Open calls", s.limit)
 	}
-	return s.inner.Open(name)
+	f, err := s.inner.Open(name)
+	if err == nil && s.probe != nil {
+		return &probeFile{f, s.probe}, nil
+	}
+	return f, err
 }
 
 // openBound: with at most k $INCLUDE lines per file and nesting limited to depth 7, at most
@@ -205,6 +273,7 @@ type outcome struct {
 	Opens  []string
 	Alloc  uint64 // bytes allocated during the parse (runtime TotalAlloc delta)
 	Bound  uint64 // the allocation bound that applied
+	Depth  int    // deepest call stack (frames) seen from inside the readers handed to the parser
 	Millis int64
 }
 
@@ -260,8 +329,10 @@ func maxLineLen(s string) int {
 // ten times what the unchanged library needs on the generated inputs (see SENSITIVITY.md).
 const (
 	allocK0 = 1 << 20
-	allocC  = 256 // per input octet (observed on the pinned tree: <= 20 on long inputs)
-	allocR0 = 1024
+	// per input octet: the lexer allocates two 512-octet buffers per token it reads, i.e. up to
+	// 512 octets per octet of token-dense text ("a a a a ..."); <= 20 on long tokens
+	allocC  = 1024
+	allocR0 = 2048
 	allocRL = 32 // per record and octet of the longest line (observed: ~5 for $GENERATE lines)
 )
 
@@ -284,7 +355,8 @@ func runParser(files map[string]string, cfg parserCfg, perRecord func(dns.RR)) (
 			inner = &faultFS{inner: m, file: cfg.FaultFile, data: d, at: min(max(cfg.FaultAt, 0), len(d)), err: injected}
 		}
 	}
-	spy := &spyFS{inner: inner}
+	dp := &depthProbe{}
+	spy := &spyFS{inner: inner, probe: dp}
 	maxOpens := openBound(files)
 	spy.limit = maxOpens + 1
 
@@ -316,7 +388,7 @@ func runParser(files map[string]string, cfg parserCfg, perRecord func(dns.RR)) (
 				rd = &fr
 			}
 		}
-		zp := dns.NewZoneParser(rd, cfg.Origin, cfg.File)
+		zp := dns.NewZoneParser(probe(rd, dp), cfg.Origin, cfg.File)
 		if cfg.HasDefTTL {
 			zp.SetDefaultTTL(cfg.DefTTL)
 		}
@@ -370,6 +442,7 @@ func runParser(files map[string]string, cfg parserCfg, perRecord func(dns.RR)) (
 		out.Millis = time.Since(start).Milliseconds()
 		out.Err = zp.Err()
 		out.Opens = spy.Opens()
+		out.Depth = dp.max
 		if viol != nil {
 			return
 		}
@@ -428,6 +501,10 @@ func runParser(files map[string]string, cfg parserCfg, perRecord func(dns.RR)) (
 		return out, fmt.Errorf("allocated %d octets for %d octets of input and %d records (bound %d)", out.Alloc, bytesRead, out.N, bound)
 	}
 
+	// call depth: no recursion per line of input
+	if limit := depthLimit(files, out.Opens, cfg.File); out.Depth > limit {
+		return out, fmt.Errorf("the parser read its input %d calls deep (limit %d): the call stack grows with the number of input lines", out.Depth, limit)
+	}
 	// include nesting is bounded
 	if len(out.Opens) > maxOpens {
 		return out, fmt.Errorf("%d Open calls; with the nesting limit at most %d are possible for these files", len(out.Opens), maxOpens)
@@ -505,6 +582,38 @@ func allocClass(o *outcome) string {
 		return "alloc:10-50%-of-bound"
 	}
 	return "alloc:50-100%-of-bound"
+}
+
+// depthLimit is depthBase; while the known finding directive-run-recursion is listed and
+// reproduces, 8 frames are added per line that holds a $GENERATE or $INCLUDE in the files read
+// (the unchanged library recurses once per record-less directive of these two kinds).
+var depthRelaxed func() bool
+
+func depthLimit(files map[string]string, opens []string, top string) int {
+	if depthRelaxed == nil || !depthRelaxed() {
+		return depthBase
+	}
+	n := 0
+	count := func(t string) {
+		u := normLex(t)
+		n += strings.Count(u, "$GENERATE") + strings.Count(u, "$INCLUDE")
+	}
+	count(files[top])
+	for _, o := range opens {
+		count(files[o])
+	}
+	if n > depthCap {
+		n = depthCap
+	}
+	return depthBase + 8*n
+}
+
+// runParserDepth is runParser with the flat depth limit (for the probe of the known finding).
+func runParserDepth(files map[string]string, cfg parserCfg) (*outcome, error) {
+	saved := depthRelaxed
+	depthRelaxed = nil
+	defer func() { depthRelaxed = saved }()
+	return runParser(files, cfg, nil)
 }
 
 func errLine(err error) int {
